@@ -84,6 +84,8 @@ impl Property for C19 {
             ("size=1".into(), m / 2),
             ("size>=32".into(), m),
             ("valid-batch".into(), m),
+            ("keys:irregular-repeats".into(), m),
+            ("keys:adjacent-equal".into(), m),
             ("pattern:complementary-z".into(), m),
             ("pattern:complementary-R".into(), m),
             ("pattern:complementary-different-keys".into(), m),
@@ -114,8 +116,11 @@ fn check<C: Suite>(case: &Case, ctx: &mut Ctx) -> CheckResult {
     let sks: Vec<SigningKey<C>> = (0..nkeys.max(2)).map(|_| SigningKey::<C>::new(&mut Tape::random(rng.next()))).collect();
     let mut items: Vec<It<C>> = Vec::new();
     let shared_msg = rng.bytes(7);
+    // key of item i: round-robin, or (odd seeds) drawn at random so that keys repeat in irregular,
+    // interleaved and adjacent patterns (A,A,B,C,B ...)
+    let random_keys = case.seed & 1 == 1;
     for i in 0..n {
-        let sk = &sks[i % nkeys];
+        let sk = if random_keys { &sks[rng.below(nkeys as u64) as usize] } else { &sks[i % nkeys] };
         let mlen = rng.below(40) as usize;
         let msg = if rng.below(3) == 0 { shared_msg.clone() } else { rng.bytes(mlen) };
         let sig = sk.sign(Tape::random(rng.next()), &msg);
@@ -258,6 +263,12 @@ fn check<C: Suite>(case: &Case, ctx: &mut Ctx) -> CheckResult {
     }
     if all_valid && n > 0 {
         ctx.label("valid-batch");
+    }
+    if random_keys && nkeys >= 2 && n >= 5 {
+        ctx.label("keys:irregular-repeats");
+    }
+    if items.windows(2).any(|w| w[0].vk == w[1].vk) {
+        ctx.label("keys:adjacent-equal");
     }
     if invalid_pos.contains(&(n.saturating_sub(1))) && n > 1 {
         ctx.label("invalid-last-position");
